@@ -108,6 +108,27 @@ def gen_db(rng, max_services=3, small_values=False):
     return db
 
 
+def gen_db_dense(rng):
+    """many attributes sharing type, value and size: 4-9 services with one of two UUIDs, few characteristics,
+    descriptors with the same type and one of two values -- fills ranged responses (Read By Group Type, Find By
+    Type Value, Read By Type, Find Information) up to the ATT_MTU boundary"""
+    suuids = [uuid_hex(rng, rng.choice([2, 2, 16])), uuid_hex(rng, 2)]
+    dvals = [bytes([7] * rng.choice([0, 1, 2, 3])).hex(), bytes([9, 9]).hex()]
+    services = []
+    for _ in range(rng.range(4, 9)):
+        chars = []
+        for _ in range(rng.choice([0, 0, 1, 1, 2])):
+            c = {'uuid': '%04X' % rng.choice([0x2A00, 0x2A01]), 'props': 0x0A, 'descs': [],
+                 'perm': rng.choice([1, 3, 3, 3, 1 | 4, 3 | 16]), 'value': rng.choice(dvals),
+                 'rerr': 0, 'werr': 0, 'flavor': rng.choice([0, 0, 0, 1, 2])}
+            for _ in range(rng.choice([0, 1, 2, 3])):
+                c['descs'].append({'uuid': '2901', 'perm': rng.choice([1, 1, 1, 3, 1 | 4]), 'value': rng.choice(dvals),
+                                   'rerr': 0, 'werr': 0, 'flavor': 0})
+            chars.append(c)
+        services.append({'uuid': rng.choice(suuids[:1] * 3 + suuids), 'primary': rng.chance(5, 6), 'chars': chars})
+    return {'services': services, 'decl_perm': {}}
+
+
 class Holder:
     """backing store of a callback-driven attribute value"""
 
@@ -292,9 +313,25 @@ class Env:
         return None
 
 
+STEP_BUDGET = 20000
+
+
 async def settle():
+    """Run the loop to idle, deterministically: a fixed number of rounds, then for as long as a task spawned by
+    AsyncRunner.run_in_task (a request handler) is still running.  Returns False when the step budget is
+    exhausted (a handler that never finishes is reported, not suffered)."""
+    from bumble import utils
     for _ in range(SETTLE_ROUNDS):
         await asyncio.sleep(0)
+    n = 0
+    while utils.AsyncRunner.running_tasks:
+        await asyncio.sleep(0)
+        n += 1
+        if n > STEP_BUDGET:
+            return False
+    for _ in range(2):
+        await asyncio.sleep(0)
+    return True
 
 
 def run_impl(scn):
@@ -328,7 +365,8 @@ def run_impl(scn):
                 env.deliver(bytes([0x12, h & 0xFF, h >> 8]) + bytes.fromhex(o[2]))
             else:
                 raise ValueError(o)
-            await settle()
+            if not await settle():
+                esc = 'hang'
             out = env.sent[before:]
             if o[0] == 'cccd':
                 out = [p for p in out if p != b'\x13']       # the Write Response to the CCCD write
@@ -442,6 +480,43 @@ def le16(n):
     return bytes([n & 0xFF, (n >> 8) & 0xFF])
 
 
+def pack_handles(rng, opcode, model_db, mtu):
+    """A handle set for Read Multiple (0x0E) / Read Multiple Variable (0x20) whose values fill the response up
+    to 0..3 bytes short of ATT_MTU - 1 (boundary of the space arithmetic), followed by one or two more handles.
+    None when the database has no fitting combination."""
+    cost = {}
+    for a in model_db:
+        if a[2] & (P_RENC | P_RAUTHN | P_RAUTHZ) or a[5]:
+            continue                      # a refused read aborts the whole request
+        n = len(a[3])
+        c = min(n, mtu - 1, 251) if opcode == 0x0E else 2 + min(n, 251)
+        cost.setdefault(c, []).append(a[0])
+    target = (mtu - 1) - rng.choice([0, 0, 1, 1, 2, 3])
+    if target < 0:
+        return None
+    # unbounded knapsack: reach[t] = a cost that completes a combination summing to t
+    reach = {0: None}
+    for t in range(1, target + 1):
+        for c in sorted(cost):
+            if 0 < c <= t and (t - c) in reach:
+                reach[t] = c
+                break
+    if target not in reach:
+        return None
+    hs = []
+    t = target
+    while t:
+        c = reach[t]
+        hs.append(rng.choice(cost[c]))
+        t -= c
+        if len(hs) > 200:
+            return None
+    hs = rng.shuffle(hs)
+    for _ in range(rng.range(1, 2)):
+        hs.append(rng.choice(model_db)[0])
+    return hs
+
+
 def gen_request(rng, opcode, model_db, mtu):
     """parameter bytes for one PDU with this opcode, boundary-biased"""
     handles = [a[0] for a in model_db]
@@ -495,12 +570,19 @@ def gen_request(rng, opcode, model_db, mtu):
         s, e = rng_range()
         t = type_bytes()[:2]
         v = some_value()
+        two = [a for a in model_db if len(a[1]) == 2]
+        if two and rng.chance(2, 3):
+            a = rng.choice(two)               # type and value of the same attribute: a match
+            t, v = bytes(a[1]), bytes(a[3])
         if rng.chance(1, 6) and v:
             v = v[:-1] if rng.chance(1, 2) else v + b'\x00'
         p = le16(s) + le16(e) + t + v
     elif opcode in (0x08, 0x10):
         s, e = rng_range()
-        p = le16(s) + le16(e) + type_bytes()
+        t = type_bytes()
+        if opcode == 0x10 and rng.chance(2, 3):
+            t = rng.choice([b'\x00\x28', b'\x00\x28', b'\x00\x28', b'\x01\x28'])
+        p = le16(s) + le16(e) + t
     elif opcode == 0x0A:
         p = le16(handle())
     elif opcode == 0x0C:
@@ -511,8 +593,12 @@ def gen_request(rng, opcode, model_db, mtu):
                           rng.below(600)])
         p = le16(h) + le16(max(0, off))
     elif opcode in (0x0E, 0x20):
-        k = rng.choice([0, 1, 2, 2, 3, 3, 4, 5, 8, 12, 30, 30, 120 if rng.chance(1, 4) else 6])
-        p = b''.join(le16(handle()) for _ in range(k))
+        packed = pack_handles(rng, opcode, model_db, mtu) if rng.chance(1, 2) else None
+        if packed is not None:
+            p = b''.join(le16(h) for h in packed)
+        else:
+            k = rng.choice([0, 1, 2, 2, 3, 3, 4, 5, 8, 12, 30, 30, 120 if rng.chance(1, 4) else 6])
+            p = b''.join(le16(handle()) for _ in range(k))
     elif opcode in (0x12, 0x52, 0xD2):
         n = rng.choice([0, 1, 2, 5, 20, mtu - 3, 100, 511, 512, 513, 600, rng.below(40)])
         p = le16(handle()) + _payload(rng, max(0, n))
